@@ -221,6 +221,10 @@ def compare(a, b, fmt, tol):
         num(a.atmasses, b.atmasses, "atmasses", 1e-9)
         num(a.energy, b.energy, "energy", 1e-12)
         num(a.atgradient, b.atgradient, "atgradient", 1e-12)
+        for k in ("success", "stdout", "stderr"):
+            va = (a.extra.get("output") or {}).get(k)
+            if va is not None and (b.extra.get("output") or {}).get(k) != va:
+                diffs.append(f"extra.output.{k} ({va!r} -> {(b.extra.get('output') or {}).get(k)!r})")
     if fmt in ("fchk", "molden", "molekel", "wfn", "wfx") and a.mo is not None:
         if b.mo is None:
             diffs.append("mo (lost)")
@@ -408,6 +412,12 @@ for fmt, files in CORPUS.items():
         except Exception:
             continue
         cycle(fmt, fn, obj, 1e-6)
+        if fmt == "json_qcschema" and obj.extra.get("schema_name") == "qcschema_output":
+            # the documented fields of extra['output'] (success, stdout, stderr) must survive
+            outp = load_one(p, fmt=fmt)
+            outp.extra["output"].update(success=True, stdout="STDOUT TEXT", stderr="STDERR TEXT")
+            outp.extra.get("input", {}).get("unparsed", {}).pop("success", None)
+            cycle(fmt, fn + "+stdout,stderr,success", outp, 1e-9)
         if fmt == "wfx":
             named = load_one(p, fmt=fmt)
             named.lot = "rhf"  # written to <Model>
